@@ -83,8 +83,9 @@ def run_histories(ctx, exe, hists, timeout=1800):
         keyl = [l.strip() for l in r.stderr.splitlines() if 'ERROR:' in l or 'SUMMARY:' in l or 'assertion failed' in l.lower()]
         events[hi].append({'e': 'Abort', 'line': line, 'stderr': ' | '.join(keyl[:3])[:600] or r.stderr[-600:]})
         deaths.append((hi, line))
-        if len(deaths) > 40:
-            raise vlib.MachineryError('driver keeps dying: %s' % r.stderr[-600:])
+        if len(deaths) >= 12:            # enough evidence; the remaining histories are not executed (and say so)
+            ctx.notes.append('driver died %d times; %d histories were not executed' % (len(deaths), len(hists) - hi - 1))
+            break
         start = hi + 1
     return events, deaths
 
